@@ -10,6 +10,7 @@
   laws are about the exact kernel quantities of GeoModel/Orient.lean.
 -/
 import GeoModel.Affine
+import GeoModel.Gen.AffineGen
 import Mathlib.Tactic.Ring
 import Mathlib.Tactic.FieldSimp
 import Mathlib.Tactic.Linarith
@@ -474,5 +475,29 @@ theorem affineTransform_coords (m : Affine Rat) (p a b : Pt) (cs : List Pt) (ls 
     coordsIter (affineTransform m (.multiPoint cs)) = cs.map m.applyPt ∧
     coordsIter (affineTransform m (.multiLineString ls)) = ls.flatten.map m.applyPt := by
   simp [affineTransform, mapCoords, coordsIter, List.map_flatten]
+
+/-! ### tie to the source: the algebraic core regenerated from `affine_ops.rs` -/
+
+/-- [E2] The hand-written model of the algebraic core of `AffineTransform` (at the exact scalars that
+carry every finite float) is, definition by definition, the term which `translator/rs2lean.py`
+regenerates from the bodies of `new`, `identity`, `compose`, `apply`, `scale`, `translate`, `rotate`
+(with `degrees.to_radians().sin_cos()` as a parameter) and `inverse` in
+geo/src/algorithm/affine_ops.rs on every run. A change of an index, a sign, an operand order or
+the determinant guard in those Rust functions changes the regenerated definitions and this theorem
+stops checking. -/
+theorem affine_kernels_eq_source :
+    (∀ a b xoff d e yoff : Rat, Affine.new a b xoff d e yoff = Gen.affNew a b xoff d e yoff) ∧
+    ((Affine.identity : Affine Rat) = Gen.affIdentity) ∧
+    (∀ a b : Affine Rat, a.compose b = Gen.affCompose a b) ∧
+    (∀ (m : Affine Rat) (p : Pt), m.apply p.x p.y = ((Gen.affApply m p).x, (Gen.affApply m p).y)) ∧
+    (∀ fx fy x0 y0 : Rat, Affine.scale fx fy x0 y0 = Gen.affScale fx fy (x0, y0)) ∧
+    (∀ dx dy : Rat, Affine.translate dx dy = Gen.affTranslate dx dy) ∧
+    (∀ c s x0 y0 : Rat, Affine.rotate c s x0 y0 = Gen.affRotate (s, c) (x0, y0)) ∧
+    (∀ m : Affine Rat, m.inverse = Gen.affInverse m) := by
+  refine ⟨fun _ _ _ _ _ _ => rfl, rfl, fun _ _ => rfl, fun _ _ => rfl, fun _ _ _ _ => rfl,
+    fun _ _ => rfl, fun _ _ _ _ => rfl, fun m => ?_⟩
+  unfold Affine.inverse Affine.inverseWith Gen.affInverse
+  simp only [beq_iff_eq]
+  rfl
 
 end Geo.Proofs.C13
